@@ -1,0 +1,42 @@
+//go:build verif
+
+// Copyright Istio Authors
+//
+// Licensed under the Apache License, Version 2.0 (the "License");
+// you may not use this file except in compliance with the License.
+// You may obtain a copy of the License at
+//
+//     http://www.apache.org/licenses/LICENSE-2.0
+//
+// Unless required by applicable law or agreed to in writing, software
+// distributed under the License is distributed on an "AS IS" BASIS,
+// WITHOUT WARRANTIES OR CONDITIONS OF ANY KIND, either express or implied.
+// See the License for the specific language governing permissions and
+// limitations under the License.
+
+// Package simhook provides yield points for the deterministic-simulation harness.
+package simhook
+
+import "sync/atomic"
+
+type hookFn func(point, key string)
+
+var hook atomic.Pointer[hookFn]
+
+// SetHook installs (or, with nil, removes) the function called at every yield point.
+func SetHook(f func(point, key string)) {
+	if f == nil {
+		hook.Store(nil)
+		return
+	}
+	h := hookFn(f)
+	hook.Store(&h)
+}
+
+// Yield marks a point where a simulator may park the calling goroutine.
+// Must never be called with a sync.Mutex held.
+func Yield(point, key string) {
+	if h := hook.Load(); h != nil {
+		(*h)(point, key)
+	}
+}
